@@ -277,6 +277,22 @@ def run(rep, tier="quick", replay=None, evidence_dir=None):
             rep.ob("C17.R6", "[C11.R1] " + o["instance"], o["ok"], o["detail"], o["loc"])
     rep.floor("C17.R6", "imported union-builder obligations", n6, 8)
 
+    # ---------------------------------------------------------------- R7: the schema walks of the derive support reach every nested schema
+    rep.rule("C17.R7", "the recursive schema walks the derive support relies on (first self-reference for flattened recursive types) descend into arrays, maps, unions and records")
+    from wire import Wire as _W7
+    w7 = _W7(prog)
+    walkers = [b for k, b in prog.bodies.items() if b.crate == "apache_avro" and b.file.endswith("serde/derive.rs") and b.kind != "Closure" and any(k in callee_names(t["func"]) for _, t in b.calls())]
+    n7 = 0
+    for b7 in walkers:
+        cov = shape.walk_coverage(prog, w7, b7)
+        if cov is None:
+            continue
+        for S7, hit in sorted(cov.items()):
+            n7 += 1
+            rep.ob("C17.R7", "%s descends into %s schemas" % (b7.path.split("::")[-1], S7), hit,
+                   "a self-reference (or nested definition) that only occurs inside a %s is not found: the flattened schema keeps a dangling reference and cannot be parsed back or written" % S7.lower(), b7.loc())
+    rep.floor("C17.R7", "composite shapes x schema walks in the derive support", n7, 4)
+
     rep.not_decided = ["validity of the derived schema beyond names, order and field types (defaults, docs, namespaces of nested types)", "JSON round trip of the derived schema, value round trips, container files: need execution",
                        "run-time handling of skipped fields' defaults (serde::ser_schema::record::field_default)"]
     return common.finish(rep, level="other",
